@@ -46,7 +46,7 @@ ASSUMPTIONS = [
     "socketpair stands in for TCP except in the real-TCP subset",
 ]
 
-ACTIONS = ["connect", "refused", "op_ok", "op_garbage", "op_badarg", "ctx_ok", "ctx_raise", "ctx_raise_os", "ctx_raise_conn", "ctx_raise_base", "ctx_refused", "drop", "disconnect"]
+ACTIONS = ["connect", "refused", "op_ok", "op_garbage", "op_badarg", "op_abandoned", "ctx_ok", "ctx_raise", "ctx_raise_os", "ctx_raise_conn", "ctx_raise_base", "ctx_refused", "drop", "disconnect"]
 PORT = {1: 9957, 2: 10000}
 
 
@@ -74,6 +74,8 @@ def enabled(model, a):
         return not model["connected"]
     if a in ("op_garbage", "op_badarg"):
         return model["connected"]
+    if a == "op_abandoned":
+        return model["connected"] and not model["dropped"]
     if a == "op_ok":
         return True  # on a client that is not connected the outcome is not judged, the flag is
     if a == "drop":
@@ -173,6 +175,9 @@ def op_spec(kind, a):
         return ("control_on", {"minutes": 5}, None) if kind == 1 else ("set_position", {"position": 30}, None)
     if a == "op_garbage":
         return ("get_state", {}, [Ellipsis, b"\x01\x02"]) if kind == 1 else ("get_breeze_state", {}, [Ellipsis, b"\x01\x02"])
+    if a == "op_abandoned":
+        # the device answers the login and then stays silent; the caller gives up (the pending call is cancelled)
+        return ("get_state", {}, [Ellipsis, False]) if kind == 1 else ("get_breeze_state", {}, [Ellipsis, False])
     return ("set_device_name", {"name": "x"}, None) if kind == 1 else ("set_position", {"position": "zz"}, None)
 
 
@@ -243,12 +248,12 @@ class World:
                 # a refused connect on a client that is connected: the statement does not say whether the open session
                 # survives, so the flag is adopted as observed; the session's socket is still judged at the next disconnect
                 m.update(connected=api.connected)
-        elif a in ("op_ok", "op_garbage", "op_badarg"):
+        elif a in ("op_ok", "op_garbage", "op_badarg", "op_abandoned"):
             out = self.do_op(a)
             if not m["connected"]:
                 pass  # the session ended in a way the statement leaves open (refused connect while connected): not judged
             elif not m["dropped"]:
-                want = {"op_ok": "ok", "op_garbage": "RuntimeError", "op_badarg": "rejected"}[a]
+                want = {"op_ok": "ok", "op_garbage": "RuntimeError", "op_badarg": "rejected", "op_abandoned": "hang"}[a]
                 got = "ok" if out[0] == "ok" else (type(out[1]).__name__ if out[0] == "exc" else out[0])
                 if a == "op_badarg" and out[0] == "exc" and isinstance(out[1], Exception):
                     got = "rejected"
@@ -368,7 +373,40 @@ def run_history(kind, actions, res, case, graph=True):
             wd.close()
 
 
-TLA_ACTIONS = {"Connect": ["connect"], "Refused": ["refused"], "Operation": ["op_ok", "op_garbage", "op_badarg"],
+TWO_LOOP_PRE = (["connect", "disconnect"], ["connect", "op_ok", "disconnect"], ["ctx_ok"], ["ctx_raise"], ["refused"], ["connect", "drop", "disconnect"],
+                ["connect", "op_abandoned", "disconnect"], [])
+
+
+def two_loops(res, kind, pre, close_first):
+    """One client object used under two event loops one after the other (two asyncio.run calls in one process):
+    'the client can connect again afterwards'."""
+    case = {"part": "twoloops", "kind": kind, "pre": list(pre), "close_first": close_first,
+            "actions": list(pre) + ["<new event loop>", "connect", "op_ok", "disconnect", "ctx_ok"]}
+    set_zone("UTC")
+    with Clock(1_700_000_000.0):
+        wd = World(kind)
+        old = wd.loop
+        try:
+            for n, a in enumerate(pre):
+                if not wd.step(a, res, case, n):
+                    return
+            if close_first:
+                old.finish()
+            wd.loop = new_loop()
+            wd.loop.refuse = lambda n, h, p: wd.refuse_next
+            wd.w.loop = wd.loop
+            wd.w.conn = None
+            wd.live = None
+            for n, a in enumerate(["connect", "op_ok", "disconnect", "ctx_ok"]):
+                if not wd.step(a, res, case, len(pre) + 1 + n):
+                    return
+        finally:
+            wd.close()
+            if not close_first:
+                old.finish()
+
+
+TLA_ACTIONS = {"Connect": ["connect"], "Refused": ["refused"], "Operation": ["op_ok", "op_garbage", "op_badarg", "op_abandoned"],
                "Context": ["ctx_ok", "ctx_raise", "ctx_raise_os", "ctx_raise_conn", "ctx_raise_base"], "CtxRefused": ["ctx_refused"], "Drop": ["drop"], "Disconnect": ["disconnect"]}
 
 
@@ -495,6 +533,7 @@ def jobs(tier, seed):
                     js.append({"part": "seq", "kind": kind, "prefix": [a, b], "depth": 6, "core": True})
         js.append({"part": "bfs", "kind": kind})
     js.append({"part": "tcp"})
+    js.append({"part": "twoloops"})
     for kind in (1, 2):
         js.append({"part": "tla", "kind": kind})
     for kinds in ((1, 1), (1, 2), (2, 2)):
@@ -506,6 +545,15 @@ def run_job(job):
     res = Res()
     if job["part"] == "tcp":
         real_tcp(res)
+        return res
+    if job["part"] == "twoloops":
+        for kind in (1, 2):
+            for pre in TWO_LOOP_PRE:
+                for close_first in (True, False):
+                    two_loops(res, kind, pre, close_first)
+                    res.traces += 1
+                    res.case(("twoloops", kind, tuple(pre), close_first), nontrivial=bool(pre))
+        res.sample({"part": "twoloops", "api_type": 1, "pre": ["connect", "op_ok", "disconnect"], "close_first": True})
         return res
     if job["part"] == "tla":
         tla_conformance(res, job["kind"])
@@ -559,6 +607,8 @@ def replay(case):
         twin(res, case["kinds"], case["actions"])
     elif case.get("part") == "tcp":
         real_tcp(res)
+    elif case.get("part") == "twoloops":
+        two_loops(res, case["kind"], case["pre"], case["close_first"])
     else:
         run_history(case["kind"], case["actions"], res, case, graph=False)
     return res.violations
